@@ -204,6 +204,9 @@ Cause(rs) ==                                 \* rs: the set of roles sharing one
   IF "method.ProtoReflect" \in rs THEN "protoreflect-unreserved"           \* ProtoReflect is missing from makeNameUnique's table
   ELSE IF "oneof.Get" \in rs THEN "oneof-getter-unreserved"                 \* makeNameUnique(oneof, hasGetter = false), getter generated
   ELSE IF rs \cap {"oneof.Has", "oneof.Clear", "oneof.Which"} # {} THEN "oneof-camelcase-unresolved"   \* conflicts only resolved among fields
+  ELSE IF rs \cap {"field.struct", "oneof.struct"} # {}
+          /\ rs \cap {"field.Get", "field.GetCompat", "field.Set", "field.Has", "field.Clear"} # {}
+       THEN "struct-field-vs-accessor"         \* hybrid: struct fields carry the mangled GoName, accessors the camelCase
   ELSE IF "field.GetCompat" \in rs THEN "hybrid-compat-getter"              \* Get<GoName> next to Get[_]<camelCase>
   ELSE IF "type.wrapper" \in rs THEN "oneof-wrapper-suffix"                 \* '_' suffixing ignores other wrapper types
   ELSE IF rs \subseteq {"field.Get", "field.Set", "field.Has", "field.Clear", "builder.field"}
@@ -212,8 +215,8 @@ Cause(rs) ==                                 \* rs: the set of roles sharing one
 WhyOf(ns, ds) == Let(ds, LAMBDA x : { [ns |-> ns, n |-> d, roles |-> RoleSeq(x, d), cause |-> Cause(Range(RoleSeq(x, d)))]
                                       : d \in Dups(NamesOf(x)) })
 \* all predicted repetitions of a declaration c, each with namespace, identifier, coinciding roles and cause
-Why(c) == Let(Naming(c), LAMBDA n : WhyOf("M", MemberDecls(c, n)) \cup WhyOf("M_builder", BuilderDecls(c, n))
-                                    \cup WhyOf("pkg", PkgDecls(c, n)))
+WhyN(c, n) == WhyOf("M", MemberDecls(c, n)) \cup WhyOf("M_builder", BuilderDecls(c, n)) \cup WhyOf("pkg", PkgDecls(c, n))
+Why(c) == Let(Naming(c), LAMBDA n : WhyN(c, n))
 Distinct(c) == Why(c) = {}
 
 \* a declaration is well-formed for protobuf: names are identifiers and pairwise distinct within M's scope
@@ -222,5 +225,7 @@ ScopeNames(c) == [i \in 1..NF(c) |-> c.fields[i].n] \o Opt(HasOneof(c), c.oname)
 WellFormed(c) == /\ \A x \in Range(ScopeNames(c)) : IsProtoIdent(x)
                  /\ Let(ScopeNames(c), LAMBDA sn : NoDup(sn))
                  /\ \A i \in 1..NF(c) : ~(c.fields[i].mem /\ c.fields[i].rep)
+                 /\ \A i, j \in 1..NF(c) : (i < j /\ c.fields[i].mem /\ c.fields[j].mem) =>     \* members are consecutive
+                        \A k \in i..j : c.fields[k].mem
                  /\ (HasOneof(c) \/ c.oname = <<>>)
 =============================================================================
